@@ -135,6 +135,10 @@ func TestVerifC12(t *testing.T) {
 			truth[i] = wtruthByte(int64(i))
 		}
 		size := uint32(len(buildInfo(g, truth, "world", s.Cfg.InfoSize)))
+		if s.Cfg.InfoKind != "" {
+			// the peers announce the size of the dictionary they actually serve
+			size = uint32(len(degenerateInfo(g, truth, s.Cfg.InfoKind)))
+		}
 		hostile := peerCfg{Fast: true, Ext: true, Metadata: 8, Pex: 9, DontHave: 7, MetadataSize: size}
 		honest := hostile
 		s.Cfg.Peers = []peerCfg{hostile, honest, honest}
